@@ -11,7 +11,9 @@ import numpy as np
 import torch
 
 from pfhedge.features import ModuleOutput
+from pfhedge.nn import Clamp
 from pfhedge.nn import EntropicLoss
+from pfhedge.nn import LeakyClamp
 from pfhedge.nn import EntropicRiskMeasure
 from pfhedge.nn import ExpectedShortfall
 from pfhedge.nn import Hedger
@@ -24,7 +26,7 @@ from .. import pipelines as P
 from ..gen import F64, pick
 
 RULE = (
-    "configurations: smooth models {Linear, MLP with tanh/softplus hidden and {identity, tanh, sigmoid} output activation, user recurrent cell, "
+    "configurations: smooth models {Linear, MLP with tanh/softplus hidden and {identity, tanh, sigmoid} output activation, user recurrent cell, no-transaction-band net (Clamp / LeakyClamp with trainable tensor bounds), "
     "module-output feature with its own parameters} x feature sets with/without prev_hedge x cost {0,1e-3,1e-2} x hedge lists (H in 1..2, listed "
     "option) x criteria {entropic risk, ES, quadratic CVaR (wide and concentrated P&L), entropic loss, isoelastic (payoff shifted), OCE incl. its "
     "w, MSELoss} x both evaluation branches x train/eval mode x stocks x derivatives; every parameter (<= 80 per model) is differenced. "
@@ -43,7 +45,7 @@ ANCHORS = ['pfhedge.nn.modules.hedger:Hedger.compute_hedge',
            'pfhedge.nn.functional:quadratic_cvar']
 DECIDING = ["grad.matches_fd", "nograd.no_graph", "grad.enable_grad_has_graph"]
 REQUIRED_BRANCHES = ["grad_after_no_grad_pass", "branch.stepwise", "branch.vectorised", "cost>0", "criterion.QuadraticCVaR.concentrated", "mode.eval", "mode.train",
-                     "output_activation.saves_output", "H>1"]
+                     "output_activation.saves_output", "H>1", "model.clamp_with_parameter_dependent_bounds"]
 
 
 def _u(x):
@@ -70,8 +72,27 @@ def make_criterion(rng):
     return torch.nn.MSELoss(), kind
 
 
+class NoTransactionBand(torch.nn.Module):
+    """The README's no-transaction-band network: the previous hedge clamped into a band whose (trainable) edges come out of a net."""
+
+    def __init__(self, n_in, leaky):
+        super().__init__()
+        self.net = MultiLayerPerceptron(in_features=n_in - 1, out_features=2, n_layers=1, n_units=4, activation=torch.nn.Tanh())
+        self.centre = torch.nn.Linear(n_in - 1, 1)
+        self.clamp = LeakyClamp(0.1) if leaky else Clamp()
+
+    def forward(self, input):
+        prev, x = input[..., [-1]], input[..., :-1]
+        width = torch.nn.functional.softplus(self.net(x))
+        centre = torch.sigmoid(self.centre(x))
+        return self.clamp(prev, min=centre - width[..., [0]], max=centre + width[..., [1]])
+
+
 def make_model(rng, n_in, n_out, prev):
-    kind = pick(rng, ["linear", "mlp", "mlp", "recurrent"] if prev else ["linear", "mlp", "mlp"])
+    kind = pick(rng, ["linear", "mlp", "mlp", "recurrent"] + (["ntb"] if n_out == 1 else []) if prev else ["linear", "mlp", "mlp"])
+    if kind == "ntb":
+        leaky = bool(rng.random() < 0.5)
+        return NoTransactionBand(n_in, leaky), "ntb_leaky" if leaky else "ntb", "clamp"
     if kind == "linear":
         return torch.nn.Linear(n_in, n_out), kind, "identity"
     if kind == "recurrent":
@@ -108,6 +129,8 @@ def drv_grad(ctx, k, rng):
     elif extra == "max" and option:
         feats = feats + ["max_log_moneyness"]
     prev = bool(rng.random() < 0.5)
+    if k % 8 == 7:
+        prev = True  # deterministic coverage: a band model whose clamp bounds carry the parameters (below)
     if k % 8 == 5:
         prev = False  # deterministic coverage: vectorised branch with an output activation that saves its output
     if prev:
@@ -116,6 +139,10 @@ def drv_grad(ctx, k, rng):
     model, mk, oa = make_model(rng, n_in, n_h, prev)
     if k % 8 == 5:
         model, mk, oa = MultiLayerPerceptron(in_features=n_in, out_features=n_h, n_layers=1, n_units=4, activation=torch.nn.Tanh(), out_activation=torch.nn.Tanh()), "mlp", "tanh"
+    if k % 8 == 7 and n_h == 1:
+        model, mk, oa = NoTransactionBand(n_in, k % 16 == 7), ("ntb_leaky" if k % 16 == 7 else "ntb"), "clamp"
+    if mk.startswith("ntb"):
+        ctx.branch("model.clamp_with_parameter_dependent_bounds")
     model.to(F64)
     if oa in ("tanh", "sigmoid") and not prev:
         ctx.branch("output_activation.saves_output")
@@ -209,14 +236,34 @@ def drv_grad(ctx, k, rng):
                 # (halves with h) but by the jump of the slope across a kink (does not shrink with h)
                 r1 = abs((fp - L0) / h - (L0 - fm) / h)
                 r2 = abs((fp2 - L0) / (h / 2) - (L0 - fm2) / (h / 2))
-                if r2 > 0.75 * r1 and r2 > 10 * bound:
+                # (a smooth function has r2 = r1 / 2 up to O(h^3); a kink anywhere in (-h, h) - also one between h/2 and h, which contaminates d(h) only and is
+                # then amplified by the extrapolation - moves the ratio away from 1/2)
+                if max(r1, r2) > bound and not (0.35 * r1 <= r2 <= 0.65 * r1):
                     n_skipped += 1
                     ctx.note("fd_kink_detected")
                     continue
                 # a kink between h/2 and h contaminates d(h) only, and Richardson then amplifies it: the half-step difference alone is also admissible
                 if not (min(abs(got - est), abs(got - d2)) <= bound + 0.1 * abs(d2 - d1)):
+                    # The loss is only piecewise smooth when positions hardly move from step to step (several kinks of the cost term within h): go down
+                    # in step size.  Held if some finer central difference agrees with autograd within the bound plus its own rounding error; violated
+                    # only if the finer differences agree with each other (so they are trustworthy) and all disagree with autograd; otherwise undecided.
+                    fine = []
+                    for sc in (1e-1, 1e-2, 1e-3):
+                        hh = h * sc
+                        dd = (f(x0 + hh) - f(x0 - hh)) / (2 * hh)
+                        fine.append((dd, bound + 8e-15 * (abs(L0) + 1e-3) / hh))
+                    if any(math.isfinite(dd) and abs(got - dd) <= tol_ for dd, tol_ in fine):
+                        ctx.note("fd_refined_step_agrees")
+                        n_checked += 1
+                        continue
+                    if not (abs(fine[1][0] - fine[2][0]) <= fine[2][1] and abs(fine[0][0] - fine[1][0]) <= 10 * fine[2][1]):
+                        n_skipped += 1
+                        ctx.note("fd_refined_steps_disagree")
+                        continue
+                    est = fine[1][0]
                     ctx.violation(mon, "gradient_mismatch", f"d loss / d parameter[{idx + j}] = {got!r} by autograd but {est!r} by finite differences "
-                                  f"(|grad| = {gnorm:.3g}, bound {bound:.3g})", sig=sig, desc=desc, index=idx + j, autograd=got, finite_difference=est)
+                                  f"(|grad| = {gnorm:.3g}, bound {bound:.3g})", sig=sig, desc=desc, index=idx + j, autograd=got, finite_difference=est,
+                                  d_h=d1, d_half_h=d2, one_sided_gap_h=r1, one_sided_gap_half_h=r2)
                     return
                 n_checked += 1
             idx += flat.numel()
